@@ -258,6 +258,9 @@ def build_world(nregions: int, vo_entries, settings: Optional[Dict[str, Any]] = 
     for region in lw.regions:
         connect_region(lw, region)
     lw.session.main_region = lw.regions[0]
+    if not recorder_sees_swallowed_exceptions():
+        events_mod.LOG = lw.recorder
+        wrap_subscribers(lw)
     return lw
 
 
@@ -275,3 +278,226 @@ def deliver(lw: LiveWorld, region, data: bytes):
     lw.session.message_handler.handle(msg)
     region.message_handler.handle(msg)
     return msg
+
+
+# =================================================================================================================
+# Looks at *private* state of the object managers (all of them go through here).  Known names first, then type/shape;
+# every miss is counted in hmc.introspect.FALLBACKS; nothing here raises: callers drop the clause that needs the value.
+# =================================================================================================================
+import asyncio  # noqa: E402
+import collections  # noqa: E402
+import collections.abc  # noqa: E402
+import weakref  # noqa: E402
+
+from hippolyzer.lib.base.objects import Object  # noqa: E402
+
+from . import introspect  # noqa: E402
+
+_ANCHORED = ("hippolyzer.lib.client.object_manager", "hippolyzer.lib.proxy.object_manager")
+_WEAK_TYPES = (weakref.ProxyType, weakref.CallableProxyType, weakref.ReferenceType)
+_SEQ = (list, tuple, collections.deque)
+
+
+def _is_int(x) -> bool:
+    return isinstance(x, int) and not isinstance(x, bool)
+
+
+def _anchored(v) -> bool:
+    """Instance of a class defined in the object-manager modules (state holders, helper containers, Avatar)."""
+    return type(v) not in _WEAK_TYPES and getattr(type(v), "__module__", "") in _ANCHORED
+
+
+def _own_members(v):
+    return [(n, x) for n, x in introspect.members(v) if not n.startswith("__")]
+
+
+def region_state(region):
+    """The per-region state holder (public attribute ``state`` of the region's object manager)."""
+    om = region.objects
+    st = getattr(om, "state", None)
+    if st is not None and callable(getattr(st, "register_future", None)):
+        return st
+    return introspect.resolve(om, ["state"], pred=lambda v: callable(getattr(v, "register_future", None)),
+                              what="ClientObjectManager.state")
+
+
+def _flat_ints(k):
+    if _is_int(k):
+        return (int(k),)
+    if isinstance(k, tuple):
+        return tuple(int(x) for x in k if _is_int(x))
+    return ()
+
+
+def reachable_futures(state, max_depth: int = 5):
+    """Every asyncio.Future reachable from the state holder's members through dicts / sequences / helper objects:
+    ``[(future, (local_id, type) or None)]``.  The key is read off the dict keys on the way down ((local, type) tuple keys
+    or local -> type nesting); futures reachable only through sequences stay unattributed (None)."""
+    found: Dict[int, list] = {}
+
+    def walk(v, keys, d):
+        if type(v) in _WEAK_TYPES:
+            return
+        if isinstance(v, asyncio.Future):
+            e = found.setdefault(id(v), [v, None])
+            if e[1] is None and keys:
+                e[1] = (keys[0], keys[1] if len(keys) > 1 else None)
+            return
+        if d >= max_depth or v is None or isinstance(v, (str, bytes, int, float)):
+            return
+        if isinstance(v, collections.abc.Mapping):
+            for k, x in list(v.items()):
+                walk(x, keys + _flat_ints(k), d + 1)
+        elif isinstance(v, _SEQ) or isinstance(v, (set, frozenset)):
+            for x in list(v):
+                walk(x, keys, d + 1)
+        elif _anchored(v):
+            for _, x in _own_members(v):
+                walk(x, keys, d + 1)
+
+    if state is not None:
+        for _, v in _own_members(state):
+            walk(v, (), 1)
+    return [(f, key) for f, key in found.values()]
+
+
+_ORPHAN_PATH: Dict[type, tuple] = {}
+
+
+def _orphan_shaped(m) -> bool:
+    return bool(m) and all(_is_int(k) and isinstance(x, _SEQ) and all(_is_int(y) for y in x) for k, x in m.items())
+
+
+def orphan_map(state):
+    """parent local -> [child locals] as the region state holds it, or None when it cannot be located.
+    Known name ``_orphans``; else the member (or the single mapping one level inside a helper object) whose content has
+    that shape -- remembered per class once it has been seen non-empty."""
+    if state is None:
+        return None
+    try:
+        v = object.__getattribute__(state, "_orphans")
+        if isinstance(v, collections.abc.Mapping):
+            return v
+    except AttributeError:
+        pass
+    introspect.note_fallback("RegionObjectsState._orphans")
+    cands = []
+    for name, v in _own_members(state):
+        if isinstance(v, collections.abc.Mapping):
+            cands.append(((name,), v))
+        elif _anchored(v):
+            inner = [(n2, x) for n2, x in _own_members(v) if isinstance(x, collections.abc.Mapping)]
+            if len(inner) == 1:
+                cands.append(((name, inner[0][0]), inner[0][1]))
+    shaped = [(p, m) for p, m in cands if _orphan_shaped(m)]
+    if len(shaped) == 1:
+        _ORPHAN_PATH[type(state)] = shaped[0][0]
+        return shaped[0][1]
+    path = _ORPHAN_PATH.get(type(state))
+    if path is not None and not shaped:
+        for p, m in cands:
+            if p == path:
+                return m
+    return None
+
+
+def _is_container(frozen) -> bool:
+    return isinstance(frozen, tuple) and len(frozen) >= 1 and frozen[0] in ("seq", "map", "set")
+
+
+def generic_state(o, now: float = 0.0, depth: int = 0):
+    """Canonical dump of live manager state without naming fields: instances of classes from the object-manager modules
+    are dumped member by member (sorted by name), dicts keep their order, futures / timers / Objects are summarised,
+    anything else from outside is reduced to its type name."""
+    t = type(o)
+    if t in _WEAK_TYPES:
+        return "weak"
+    if o is None or isinstance(o, (bool, str, bytes, float)):
+        return o
+    if isinstance(o, int):
+        return int(o)
+    if isinstance(o, UUID):
+        return str(o)
+    if isinstance(o, asyncio.Future):
+        return ("fut", o.done(), o.cancelled())
+    if isinstance(o, asyncio.TimerHandle):
+        return ("timer", o.cancelled(), round(o.when() - now, 3))
+    if isinstance(o, asyncio.Handle):
+        return ("handle", o.cancelled())
+    if isinstance(o, asyncio.Lock):
+        return ("lock", o.locked())
+    if isinstance(o, Object):
+        return ("obj", str(o.FullID), o.LocalID, o.ParentID, o.RegionHandle)
+    if depth > 7:
+        return t.__name__
+    if isinstance(o, collections.abc.Mapping):
+        items = [(generic_state(k, now, depth + 1), generic_state(v, now, depth + 1)) for k, v in list(o.items())]
+        if not any(_is_container(v) for _, v in items):
+            # plain lookup tables (key -> Object / scalar / helper object): entry order is not observable through
+            # anything the property talks about.  Maps of containers (future registries, orphan lists) keep their order:
+            # it can decide which waiter is cancelled / woken first.
+            items.sort(key=lambda kv: repr(kv[0]))
+        return ("map",) + tuple(items)
+    if isinstance(o, _SEQ):
+        return ("seq",) + tuple(generic_state(x, now, depth + 1) for x in o)
+    if isinstance(o, (set, frozenset)):
+        return ("set",) + tuple(sorted((generic_state(x, now, depth + 1) for x in o), key=repr))
+    if _anchored(o):
+        return (t.__name__,) + tuple(sorted(((n, generic_state(v, now, depth + 1)) for n, v in _own_members(o)),
+                                            key=lambda kv: kv[0]))
+    if getattr(t, "__module__", "") == "hippolyzer.lib.base.datatypes":
+        return repr(o)
+    return t.__name__
+
+
+_RECORDER_OK: Optional[bool] = None
+
+
+def recorder_sees_swallowed_exceptions() -> bool:
+    """Self-test (once per process): does an exception raised by an Event subscriber reach the recorder installed as
+    ``events.LOG``?  If the dispatcher no longer reports through that name the harness wraps subscribers instead."""
+    global _RECORDER_OK
+    if _RECORDER_OK is None:
+        saved = getattr(events_mod, "LOG", None)
+        rec = SwallowRecorder()
+        events_mod.LOG = rec
+        try:
+            ev = events_mod.Event("selftest")
+
+            def _boom(_arg):
+                raise RuntimeError("selftest")
+            ev.subscribe(_boom)
+            ev.notify(None)
+        except Exception:
+            pass
+        events_mod.LOG = saved
+        _RECORDER_OK = bool(rec.raised)
+        if not _RECORDER_OK:
+            introspect.note_fallback("events.LOG")
+    return _RECORDER_OK
+
+
+def wrap_subscribers(lw: "LiveWorld"):
+    """Fallback when the recorder cannot be installed: wrap every subscriber of the session's message handler so that
+    what it raises is recorded before the dispatcher swallows it."""
+    handlers = getattr(lw.session.message_handler, "handlers", None)
+    if not isinstance(handlers, dict):
+        return
+    for event in handlers.values():
+        subs = getattr(event, "subscribers", None)
+        if not isinstance(subs, list):
+            continue
+        for i, tup in enumerate(list(subs)):
+            if not (isinstance(tup, tuple) and tup and callable(tup[0])) or getattr(tup[0], "_c14_wrapped", False):
+                continue
+
+            def make(fn):
+                def wrapped(*a, **kw):
+                    try:
+                        return fn(*a, **kw)
+                    except Exception as e:
+                        lw.recorder.raised.append({"site": exception_site(e), "detail": f"subscriber raised {e!r}"})
+                        raise
+                wrapped._c14_wrapped = True
+                return wrapped
+            subs[i] = (make(tup[0]),) + tuple(tup[1:])
